@@ -56,7 +56,7 @@ type c16Stmt struct {
 
 func (s c16Stmt) canon() string { return strings.Join(s.lines, "\n") }
 
-const c16Special = "{}[];(),:#\"\\ xyz01"
+const c16Special = "{}[];(),:#\"\\ xyz01%d"
 
 func c16String(tp *tape.Tape, allowNewline bool) (lit string, special bool, newlines int) {
 	n := tp.Draw(10)
